@@ -488,7 +488,7 @@ def op_login_attack(H):
 def op_advance(H):
     rng = H.rng
     k = H.k
-    dt = rng.choice([1, 5, 20, 50, 58, 59, 60, 61, 62, 70, 125])
+    dt = rng.choice([1, 5, 20, 50, 58, 59, 60, 60, 60, 61, 61, 62, 70, 125])
     keep = [p for p in H.parties if p.stage in ("l", "raw") and _alive(H, p) and rng.random() < 0.6]
     end = k.now + dt * US
     while k.now < end and H.srv.alive():
@@ -522,7 +522,7 @@ def op_reuse(H):
             old.mc.query(old.mc.ping_labels())
             k.run(k.now + 20000)
     keep = [p for p in H.parties if p is not old and p.stage in ("l", "raw") and _alive(H, p) and rng.random() < 0.5]
-    end = k.now + rng.choice([61, 62, 65, 90]) * US
+    end = k.now + rng.choice([59, 60, 60, 60, 61, 61, 62, 65, 90]) * US      # around the liveness boundary
     while k.now < end:
         k.run(min(end, k.now + 20 * US))
         for p in keep:
